@@ -244,7 +244,7 @@ def run(tier, seed):
         "with the real reader and additionally read by an independent s-expression interpreter; name-keyed canonical "
         "structures must agree; states = distinct canonical inputs; transitions = compose + parse executions")
     found = {}
-    deadline = time.time() + (200 if tier == "quick" else 3000)
+    deadline = time.time() + (900 if tier == "quick" else 6000)
     cs = cases(tier)
     k = seed % 7
     engine_b.run_cases(ID, cs[k:] + cs[:k], cov, found, deadline, level="edif-roundtrip/" + tier)
